@@ -1,12 +1,13 @@
 """C11 -- derived values are never stale after a dependency changes."""
 from . import _sc
 
-NAMES = ["inv_chain", "inv_attr", "inv_nocache", "inv_list", "inv_sub"]
+NAMES = ["inv_chain", "inv_attr", "inv_nocache", "inv_list", "inv_sub", "frozen_inv", "inv_post_init"]
 
 
 def main(tier):
     # dependency graphs: attribute -> cached property -> cached property, '*' wildcard, managed attribute invalidated_by,
-    # chain through a non-caching property, collection dependency (element helpers), dependants added by a subclass.
+    # chain through a non-caching property, collection dependency (element helpers), dependants added by a subclass,
+    # a frozen class (invalidation on the thawed copy), caches filled and a dependency assigned during __post_init__.
     return _sc.run("C11", tier, ["c11_", "c05_", "c06_", "c04_"], names=NAMES, quick_pairs=30000,
                    need=("cow", "raised", "specified", "changed", "inplace"),
                    assumptions=["each getter reads exactly its declared dependencies; overrides are tracked by the model (ghost) because the instance dict does not distinguish them from caches",
